@@ -230,6 +230,10 @@ func (t *Ticket) GetPACType(keytab *keytab.Keytab, sname *types.PrincipalName, l
 				l.Printf("PAC authorization data could not be unmarshaled: %v", err)
 				continue
 			}
+			if len(ad2) < 1 {
+				// An empty AD-IF-RELEVANT container holds nothing, in particular no PAC.
+				continue
+			}
 			if ad2[0].ADType == adtype.ADWin2KPAC {
 				isPAC = true
 				var p pac.PACType
